@@ -2,7 +2,7 @@
 from ..core import q
 from ..core.q import expect_term, expect_fn, site, peel, ANY
 from ..core.ir import walk, strip, walk_with_parents
-from ..core.norm import Norm, show, cshort, as_for_loop
+from ..core.norm import Norm, show, cshort, as_for_loop, subterms
 from .. import gen_rules as G, k10, k13
 
 META = {
@@ -136,6 +136,18 @@ def flatten(ctx):
                            "path-keyed look-ups outside the per-entry loop may consume",
                            "`%s` consumes the recursive derives of a PATH inside the loop over registry entries: several entries can carry that path "
                            "(Foo<Bar>, Foo<Baz>), so only the first same-path root is flattened and the children of the others get nothing" % cshort(n.get("callee", n["name"])))
+    # a shortcut in front of the flattening may only skip it when there is nothing to flatten: no recursive registration at all, result = the
+    # default and specific derives unchanged (no shortcut at all is fine as well)
+    ft = N.term(fn["body"])
+    n_short = 0
+    while ft[0] == "if" and not any(x[0] == "for" for x in subterms(ft[2])):
+        n_short += 1
+        got = "%s => %s" % (show(ft[1]), show(ft[2]))
+        exp = ("HashMap::is_empty(P0.recursive_type_derives) => Ok(derives::FlatDerivesRegistry{default_derives:P0.default_derives,"
+               "specific_type_derives:P0.specific_type_derives})")
+        ctx.expect(got == exp, "C08.4", "flatten/shortcut", fn["sp"], "the only way around the flattening: no recursive registrations, derives returned unchanged",
+                   "flatten_recursive_derives returns early under `%s`" % got[:300])
+        ft = ft[3]
     loops = [(n, as_for_loop(n)) for n in walk(fn["body"], into_closures=False) if as_for_loop(n) is not None]
     # role: the loop over the registry entries that runs the reachability traversal (a call receiving the `&mut HashSet<u32>`)
     entry = [(n, fl) for n, fl in loops if show(N.term(fl[1])) == REG
